@@ -131,8 +131,9 @@ PROPS = {
     "C12": P("Props/C12.v", [("pool-scn", 80, 500), ("probe-scn", 18, 72)],
         "Forward quotes: full proof. Simulation equals the computation an executed Swap uses (same return and fee amounts, hence same "
         "messages); SimulateSwapOperations equals the final amount of ExecuteSwapOperations on routes visiting each pool at most "
-        "once (pools may share denoms), any length. Reverse quotes on constant product: the literal 'quote+1 suffices' is false of "
-        "the unchanged code for large amounts (18-digit truncation of 1/(1-fees), known finding F-rev18); covered by the "
+        "once (pools may share denoms), any length. Reverse quotes on constant product: 'quote+1 suffices' is PROVED for requested amounts up to 10^18 units, for all "
+        "reserves and fee settings (ReverseQuote.v, C12_reverse_quote_plus_one_suffices_up_to_1e18); it is false of "
+        "the unchanged code for larger amounts (18-digit truncation of 1/(1-fees), known finding F-rev18); covered by the "
         "correspondence (ReverseSimulation answers compared on every run) — that clause is partial."),
     "C13": P("Props/C13.v", [("pool-scn", 48, 400), ("chain-pool", 32, 250), ("probe-scn", 18, 72)],
         "Full proof for the documented predicates: tolerance = min(max_slippage or 1%, 50%); accept-iff characterisations without and "
